@@ -93,7 +93,9 @@ def install(eng):
 
     # invariant shared by schedule / _schedule / _cached_schedule (all names are the closure's own)
     STATIC = [
-        "forall(lambda u: DepsOf(graph, u) == deps0(u), Target)",
+        "forall(lambda u, d: (d in DepsOf(graph, u)) == (d in deps0(u)), Target, Target)",
+        # acyclic: the cycle check's finishing times strictly decrease along dependencies (C04)
+        "forall(lambda u, d: implies(d in deps0(u), 0 <= fin[d] and fin[d] < fin[u]), Target, Target)",
         # every input is an existing file or an output of a direct dependency (Graph invariant, C04)
         "forall(lambda u, p: implies(p in Ins(u), fs_exists(fs, p) or any(p in Outs(a) for a in deps0(u))), Target, Path)",
         "forall(lambda u, p: implies(not stale0(u) and p in Outs(u), fs_exists(fs, p)), Target, Path)",
@@ -122,7 +124,7 @@ def install(eng):
             "_cached_schedule": FnRef("gwf.scheduling:schedule._cached_schedule")}
     MODS = ["cache", "Graph.dependencies"] + GHOSTS
     EXC = {"Exception": {"cond": "True", "ensures": STATIC + LOGINV}}
-    USES = ["spec", "rank", "cone", "fs"]
+    USES = ["spec", "cone", "fs"]
     HINTS = ["forall(lambda u: deps0(u) == NoTargets and Ins(u) == NoPaths and Outs(u) == NoPaths, Target)",
              "dom(log_pos) == NoTargets", "log_n == 0", "dom(graph.dependencies) == NoTargets"]
     HINTS_C = HINTS + ["dom(cache) == NoTargets"]
